@@ -370,6 +370,37 @@ run_line(struct section *s, char *line)
 		do_ev(s, args);
 	} else if (strcmp(op, "jumbo") == 0) {
 		do_jumbo(s, args);
+	} else if (strcmp(op, "bulk") == 0) {
+		/* bulk <count>: count events OB. stamped with the real clock and carrying
+		 * the 16-byte payload (i, ~i).  Logged as 'B' count before and, once all
+		 * calls have returned, 'b' followed by the count clocks (one write). */
+		unsigned long count = strtoul(args, NULL, 10);
+		if (count == 0 || count > 4000000) {
+			fprintf(stderr, "rtdrv: bad bulk line: %s\n", args);
+			exit(98);
+		}
+		uint8_t rec[5];
+		uint32_t c32 = (uint32_t) count;
+		rec[0] = 'B';
+		memcpy(rec + 1, &c32, 4);
+		logrec(s, rec, 5);
+		uint8_t *clk = malloc(1 + count * 8);
+		if (clk == NULL)
+			exit(97);
+		clk[0] = 'b';
+		for (uint64_t i = 0; i < count; i++) {
+			struct ovni_ev ev;
+			memset(&ev, 0, sizeof(ev));
+			uint64_t now = ovni_clock_now();
+			memcpy(clk + 1 + i * 8, &now, 8);
+			ovni_ev_set_clock(&ev, now);
+			ovni_ev_set_mcv(&ev, "OB.");
+			uint64_t pl[2] = { i, ~i };
+			ovni_payload_add(&ev, (uint8_t *) pl, 16);
+			ovni_ev_emit(&ev);
+		}
+		logrec(s, clk, 1 + count * 8);
+		free(clk);
 	} else if (strcmp(op, "flush") == 0) {
 		logc(s, 'f');
 		ovni_flush();
